@@ -1,4 +1,4 @@
-import CDVProofs.ReadSame
+import CDVProofs.ReadSameFull
 /-! # C01 / C09 — the operand tables of a code object survive `from_code` → `to_code` -/
 namespace CDV.Props.C01
 open CDV
@@ -141,6 +141,41 @@ theorem C01_reads_identically (v : Ver) (T : OpTable) (F : FlagTable) (dec : Raw
       (Spec.read v T (.mk argc pos kw nl ss fl fln code lt fname name names varnames freevars cellvars consts)).map (fun s => (s.op, s.arg)) :=
   decoded_reads_identically v T F dec enc argc pos kw nl ss fl fln code lt fname name names varnames freevars cellvars consts d c'
     hA h hlen hnodup hpos37 hcode hcomp hpre hmin hjs hcn hfn henc
+
+/-- **… lines included: CPython reads `from_code(c).to_code()` exactly as it reads `c`.**  With the hypotheses of
+    `C01_all_but_linetable`, those of C02 about the line table (in-range rows, even address deltas) and jump targets, operands
+    that fit four code units, and — before 3.10 — a line on the additional line if there is one: `Spec.read` of the rebuilt
+    code object *equals* `Spec.read` of the original, as lists: same instructions, same resolved operands, same line for
+    every instruction (`None` where CPython has none), whatever bytes the line table is written in. -/
+theorem C01_reads_identically_full (v : Ver) (T : OpTable) (F : FlagTable) (dec : RawCode → R CodeData) (enc : CodeData → R RawCode)
+    (argc pos kw nl ss fl : Nat) (fln : Int) (code lt : List Nat) (fname name : PStr) (names varnames freevars cellvars : List PStr)
+    (consts : List RConst) (d : CodeData) (c' : RawCode)
+    (hA : F.annotations ∉ [bOPTIMIZED, bNEWLOCALS, bVARARGS, bVARKEYWORDS, bNESTED, bGENERATOR, bNOFREE, bCOROUTINE, bASYNC_GENERATOR])
+    (h : toCodeDataGo v T F dec (.mk argc pos kw nl ss fl fln code lt fname name names varnames freevars cellvars consts) = .ok d)
+    (hlen : argc + kw + (if fl.testBit bVARARGS then 1 else 0) + (if fl.testBit bVARKEYWORDS then 1 else 0) ≤ varnames.length)
+    (hnodup : (varnames.take (argc + kw + (if fl.testBit bVARARGS then 1 else 0) + (if fl.testBit bVARKEYWORDS then 1 else 0))).Nodup)
+    (hpos37 : v.hasPosOnly = false → pos = 0)
+    (hcode : ∀ x ∈ code, x < 256) (hcomp : Complete code 0)
+    (hpre : ∀ raws, parseBytes code = .ok raws → ∀ r ∈ raws, r.nargs ≤ 4)
+    (hmin : ∀ raws, parseBytes code = .ok raws → ∀ r ∈ raws, T.get r.op ≠ .jabs → T.get r.op ≠ .jrel → r.nargs = instrsize r.arg)
+    (hjs : ∀ raws, parseBytes code = .ok raws → ∀ r ∈ raws,
+      (T.get r.op = .jabs → (decMult v * r.arg).toNat ∈ raws.map (·.first)) ∧
+      (T.get r.op = .jrel → ((r.next : Int) + decMult v * r.arg).toNat ∈ raws.map (·.first)))
+    (hcn : cellvars.Nodup) (hfn : freevars.Nodup)
+    (hvalid : ∀ s ∈ Spec.read v T (.mk argc pos kw nl ss fl fln code lt fname name names varnames freevars cellvars consts),
+      ∀ idx rel, s.arg = .jump idx rel → idx.isSome)
+    (hteven : lt.length % 2 = 0) (htbytes : ∀ x ∈ lt, x < 256)
+    (htbc : v.is310 = true → ∀ x ∈ LT.bytesToItems lt, x.bc % 2 = 0 ∧ x.bc ≠ 255)
+    (htbcOld : v.is310 = false → ∀ cs, LT.collapse false (LT.bytesToItems lt) = some cs → ∀ c ∈ cs, c.bc % 2 = 0)
+    (hT : ∀ op, T.get op = .ext → op = EXTENDED_ARG)
+    (hrne : Spec.read v T (.mk argc pos kw nl ss fl fln code lt fname name names varnames freevars cellvars consts) ≠ [])
+    (hfit : ∀ args0 args fuel, relax v d.blocks.flatten (blockStarts d.blocks 0) fuel args0 = .ok args →
+      ∀ p ∈ d.blocks.flatten.zip args, Encodable p.1 p.2)
+    (hal : v.is310 = false → ∀ a, d.addLine = some a → a.line.isSome)
+    (henc : fromCodeDataGo v F enc d = .ok c') :
+    Spec.read v T c' = Spec.read v T (.mk argc pos kw nl ss fl fln code lt fname name names varnames freevars cellvars consts) :=
+  decoded_reads_identically_full v T F dec enc argc pos kw nl ss fl fln code lt fname name names varnames freevars cellvars consts d c'
+    hA h hlen hnodup hpos37 hcode hcomp hpre hmin hjs hcn hfn hvalid hteven htbytes htbc htbcOld hT hrne hfit hal henc
 
 /-- non-vacuity: a 3.8 module body with a conditional forward jump and a backward jump
     (`LOAD_NAME x; POP_JUMP_IF_FALSE 8; LOAD_CONST; JUMP_ABSOLUTE 0; LOAD_CONST; RETURN_VALUE`) decodes into two blocks
